@@ -25,6 +25,7 @@ def run(ctx):
           ("abort", ctx.px(R["abort"], inline=lambda c, d: True, key="all"))]
     CH.wake_discipline(ctx, "C10.R2", fo)
     CH.publish_rules(ctx, "C10.R4.publish", "C10.R4.nonempty", "C10.R4.flag")
+    CH.drop_always_announces(ctx, "C10.R4.drop")
     CH.lock_discipline(ctx, "C10.R4")
     CH.critical_sections_panic_free(ctx, "C10.R4.nopanic")
     CH.end_stream_table(ctx, "C10.R5")
